@@ -48,4 +48,71 @@ CASES = [
     auto const previous_capacity""", """    // switch to the new buffer, existing one is deleted
     auto const unused_hpp = _consumer->bounded_queue.huge_pages_policy(); (void)unused_hpp;
     auto const previous_capacity""")]),
+
+ dict(name="b-lockguard-to-explicit-lock", ids=["C17", "C20"], subs=[("core/LoggerManager.h", """  QUILL_NODISCARD size_t get_number_of_loggers() const noexcept
+  {
+    LockGuard const lock{_spinlock};
+    return _loggers.size();""", """  QUILL_NODISCARD size_t get_number_of_loggers() const noexcept
+  {
+    _spinlock.lock();
+    size_t const n = _loggers.size();
+    _spinlock.unlock();
+    return n;""")]),
+ dict(name="b-c09-unconditional-publish", ids=["C09", "C01"], subs=[(B, """    if ((static_cast<integer_type>(_reader_pos - _atomic_reader_pos.load(std::memory_order_relaxed)) >= _bytes_per_batch) ||
+        (_reader_pos == _writer_pos_cache))
+    {""", """    {""")]),
+ dict(name="b-c20-counter-size_t", ids=["C20"], subs=[("core/ThreadContextManager.h", "std::atomic<uint32_t> _invalid_thread_context_count{0};", "std::atomic<size_t> _invalid_thread_context_count{0};")]),
+ dict(name="b-c10-handler-via-helper", ids=["C10", "C03"], subs=[("backend/BackendWorker.h", """    QUILL_CATCH(std::exception const& e) { _options.error_notifier(e.what()); }
+    QUILL_CATCH_ALL()
+    {
+      _options.error_notifier(std::string{"Caught unhandled exception."});
+    } // clang-format on
+#endif
+
+    // Finally clean up any remaining fields in the transit event""", """    QUILL_CATCH(std::exception const& e) { std::string const msg{e.what()}; _options.error_notifier(msg); }
+    QUILL_CATCH_ALL()
+    {
+      std::string const msg{"Caught unhandled exception."};
+      _options.error_notifier(msg);
+    } // clang-format on
+#endif
+
+    // Finally clean up any remaining fields in the transit event""")]),
+ dict(name="b-c05-min-selection-rewritten", ids=["C05", "C03"], subs=[("backend/BackendWorker.h", "if (te && (min_ts > te->timestamp))", "if ((te != nullptr) && (te->timestamp < min_ts))")]),
+ dict(name="b-c03-extra-metrics", ids=["C03", "C05", "C06", "C09", "C10"], subs=[("backend/BackendWorker.h", """      frontend_queue.finish_read(bytes_read);
+      total_bytes_read += bytes_read;""", """      frontend_queue.finish_read(bytes_read);
+      total_bytes_read += bytes_read;
+      ++_stats_records_read;"""), ("backend/BackendWorker.h", "  bool _wake_up_flag{false};\n};", "  bool _wake_up_flag{false};\n  uint64_t _stats_records_read{0};\n};")]),
+ dict(name="b-c18-index-reset-before-clear", ids=["C18"], subs=[("backend/BacktraceStorage.h", "    _stored_events.clear();\n    _index = 0;\n  }", "    _index = 0;\n    _stored_events.clear();\n  }")]),
+ dict(name="b-c12-new-attribute-with-all-rows", ids=["C12"], subs=[("backend/PatternFormatter.h", "    NamedArgs,\n    ATTR_NR_ITEMS", "    NamedArgs,\n    Hostname,\n    ATTR_NR_ITEMS"),
+      ("backend/PatternFormatter.h", '"short_source_location"_a = "", "message"_a = "", "tags"_a = "", "named_args"_a = "");', '"short_source_location"_a = "", "message"_a = "", "tags"_a = "", "named_args"_a = "", "hostname"_a = "");'),
+      ("backend/PatternFormatter.h", '    _set_arg<Attribute::NamedArgs>(std::string_view("named_args"));', '    _set_arg<Attribute::NamedArgs>(std::string_view("named_args"));\n    _set_arg<Attribute::Hostname>(std::string_view("hostname"));'),
+      ("backend/PatternFormatter.h", '      {"named_args", PatternFormatter::Attribute::NamedArgs}};', '      {"named_args", PatternFormatter::Attribute::NamedArgs},\n      {"hostname", PatternFormatter::Attribute::Hostname}};'),
+      ("backend/PatternFormatter.h", "    _set_arg_val<Attribute::Message>(log_msg);", "    if (_is_set_in_pattern[Attribute::Hostname])\n    {\n      _set_arg_val<Attribute::Hostname>(std::string_view{\"host\"});\n    }\n\n    _set_arg_val<Attribute::Message>(log_msg);")]),
+ dict(name="b-c04-consistent-reorder-of-header-words", ids=["C04", "C01"], subs=[("Logger.h", """    std::memcpy(write_buffer, &metadata, sizeof(uintptr_t));
+    write_buffer += sizeof(uintptr_t);
+
+    std::memcpy(write_buffer, &logger_ctx, sizeof(uintptr_t));
+    write_buffer += sizeof(uintptr_t);
+""", """    std::memcpy(write_buffer, &logger_ctx, sizeof(uintptr_t));
+    write_buffer += sizeof(uintptr_t);
+
+    std::memcpy(write_buffer, &metadata, sizeof(uintptr_t));
+    write_buffer += sizeof(uintptr_t);
+"""), ("backend/BackendWorker.h", """    std::memcpy(&transit_event->macro_metadata, read_pos, sizeof(transit_event->macro_metadata));
+    read_pos += sizeof(transit_event->macro_metadata);
+
+    std::memcpy(&transit_event->logger_base, read_pos, sizeof(transit_event->logger_base));
+    read_pos += sizeof(transit_event->logger_base);
+""", """    std::memcpy(&transit_event->logger_base, read_pos, sizeof(transit_event->logger_base));
+    read_pos += sizeof(transit_event->logger_base);
+
+    std::memcpy(&transit_event->macro_metadata, read_pos, sizeof(transit_event->macro_metadata));
+    read_pos += sizeof(transit_event->macro_metadata);
+""")]),
+ dict(name="b-c14-rename-local", ids=["C14", "C15"], subs=[("sinks/RotatingSink.h", """      fs::path const removed_file = _get_filename(
+        _created_files.back().base_filename, _created_files.back().index, _created_files.back().date_time);
+      _remove_file(removed_file);""", """      fs::path const oldest = _get_filename(
+        _created_files.back().base_filename, _created_files.back().index, _created_files.back().date_time);
+      _remove_file(oldest);""")]),
 ]
